@@ -8,8 +8,8 @@ import Duckling.Lemmas.RBasic
                                  with its last `k` components removed, and the rest of the name is left to descend;
   * `C12_past_root_rejected`    more leading dots than the folder is deep is a compile error;
   * `C12_double_dot_rejected`   an empty inner component (`a..b`) is a compile error; `C12_trailing_dot_rejected` a trailing dot is rejected by the hook;
-  * `C12_descend`               without leading dots a single name resolves to `<folder of the importing file>/name.txt`
-                                 (an `example` checks a multi-component name with climbing by kernel evaluation);
+  * (`example`s)                without leading dots a single name resolves to `<folder of the importing file>/name.txt`; a
+                                 multi-component name with climbing is checked by kernel evaluation;
   * `C12_missing_target`        a target that is not a file is a compile error;
   * `C12_start_contract`        START: the file's output in place, and everything it defined or assigned is visible afterwards
                                  (variables and functions are merged back: `exitParallel`); the file starts from the importer's
